@@ -217,10 +217,19 @@ def add_rules(rng, cfg, profile):
             members = rng.sample(cfg.args, rng.randint(2, min(3, n)))
             if not (force != "all_of" and sum(1 for m in members if m.mandatory) > 1):
                 cfg.constraints.append((force, members, 0))
-        elif force == "requires":
+        elif force in ("requires-overlap", "excludes-overlap") and n >= 5:
+            # two arguments whose requirement / exclusion lists overlap, the shared entry first: 'a: x;y' and 'b: x;z'
+            x, y, z = cfg.args[2], cfg.args[3], cfg.args[4]
+            if force == "requires-overlap":
+                a.requires += [x, y]
+                b.requires += [x, z]
+            elif not (x.mandatory or y.mandatory or z.mandatory):
+                a.excludes += [x, y]
+                b.excludes += [x, z]
+        elif force in ("requires", "requires-overlap"):
             if b not in a.requires:
                 a.requires.append(b)
-        elif force == "excludes":
+        elif force in ("excludes", "excludes-overlap"):
             if not b.mandatory:
                 a.excludes.append(b)
         elif force == "mandatory":
